@@ -83,6 +83,7 @@ BUILTIN_STRUCTS = {
     'Zip': (['A', 'B'], [('a', 'A'), ('b', 'B'), ('index', 'usize'), ('len', 'usize'), ('a_len', 'usize')]),
     'Map': (['I', 'F'], [('iter', 'I'), ('f', 'F')]),
     'Cloned': (['I'], [('it', 'I')]),
+    'Peekable': (['I'], [('iter', 'I'), ('peeked', 'Option<Option<&usize>>')]),
     'Copied': (['I'], [('it', 'I')]),
     'IntoIter': (['T', 'N'], [('inner', 'ManuallyDrop<PolymorphicIter<[MaybeUninit<T>; N]>>')]),
     'PolymorphicIter': (['T'], [('alive', 'IndexRange'), ('data', 'T')]),
